@@ -29,7 +29,7 @@ UNITS = [
     Unit(uid="U19.5.sps_at_key", prop="C19", harness=H, entry="h_sps", mode="plain", defines=["U19_SPS"],
          functions=["packetization_kernel [block slice: sequence header emission]"],
          slice_spec=[{"kind": "slice", "file": PK, "func_re": r"^void \*packetization_kernel\(",
-                      "first": "// Code the SPS", "last": "EB_AV1_METADATA_TYPE_HDR_MDCV);", "epilogue": ["}"],
+                      "first": "size_t metadata_sz = 0;", "last": "EB_AV1_METADATA_TYPE_HDR_MDCV);", "epilogue": ["}"],
                       "name": "verif_c19_sps",
                       "params": "PictureControlSet *pcs_ptr, SequenceControlSet *scs_ptr, FrameHeader *frm_hdr"}],
          replace_calls={"encode_sps_av1": "stub_encode_sps", "write_metadata_av1": "stub_write_metadata"},
